@@ -52,15 +52,26 @@ def main(argv):
     os.makedirs('/tmp/vm', exist_ok=True)
     sh('git -C /repo worktree remove --force %s' % wt)
     shutil.rmtree(wt, ignore_errors=True)
-    rc, o = sh('git -C /repo worktree add --detach %s HEAD' % wt)
+    base = 'HEAD'
+    for a in argv:
+        if a.startswith('--base='):
+            base = a[len('--base='):]
+    rc, o = sh('git -C /repo worktree add --detach %s %s' % (wt, base))
     if rc:
         print(o)
         return 2
-    meta = {'property': prop, 'name': name, 'repo_head': sh('git -C /repo rev-parse --short HEAD')[1].strip()}
+    meta = {'property': prop, 'name': name, 'repo_head': sh('git -C /repo rev-parse --short %s' % base)[1].strip()}
     try:
         rc0, o0 = sh('%s %s' % (PY, os.path.abspath(demo)), cwd=wt)
         meta['demo_clean_exit'] = rc0
         rc, o = sh('git apply %s' % os.path.abspath(patch), cwd=wt)
+        if rc:
+            # the library has moved on since the change was written: merge it onto the current head
+            rc, o = sh('git apply --3way %s' % os.path.abspath(patch), cwd=wt)
+            meta['applied_3way'] = (rc == 0)
+            if rc == 0:
+                sh('git reset -q', cwd=wt)
+                sh('git diff > %s.rebased' % os.path.abspath(patch), cwd=wt)
         if rc:
             print('patch does not apply:\n' + o)
             meta['applies'] = False
@@ -101,7 +112,8 @@ def main(argv):
     if meta.get('valid'):
         d = os.path.join(VERIF, 'seeded', name)
         os.makedirs(d, exist_ok=True)
-        shutil.copy(patch, os.path.join(d, 'patch.diff'))
+        shutil.copy(patch + '.rebased' if meta.get('applied_3way') and os.path.exists(patch + '.rebased') else patch,
+                    os.path.join(d, 'patch.diff'))
         shutil.copy(demo, os.path.join(d, 'demo.py'))
         notes = os.path.splitext(patch)[0].replace('patch', 'notes') + '.md'
         if os.path.exists(notes):
